@@ -65,10 +65,11 @@ type Peer struct {
 	// buffer has been written (used to wait until the peer consumed it).
 	Pace func()
 
-	nextTag  uint32
-	frames   int64
-	quit     chan struct{}
-	quitOnce sync.Once
+	handleSeq int64
+	nextTag   uint32
+	frames    int64
+	quit      chan struct{}
+	quitOnce  sync.Once
 }
 
 // Options tune how the server side sees the connection.
@@ -101,7 +102,7 @@ func New(srv *p9.Server, o *Options) *Peer {
 	}
 	go func() {
 		srv.Handle(r, w)
-		Tick()
+		atomic.StoreInt64(&p.handleSeq, Tick())
 		close(p.HandleDone)
 	}()
 	go p.reader()
@@ -218,6 +219,9 @@ func (p *Peer) reader() {
 		p.kick()
 	}
 }
+
+// HandleSeq is the logical time at which Server.Handle returned (0 if not yet).
+func (p *Peer) HandleSeq() int64 { return atomic.LoadInt64(&p.handleSeq) }
 
 // Monitor returns (and clears) what the reply-stream monitor flagged.
 func (p *Peer) Monitor() []string {
